@@ -24,7 +24,41 @@ class Spec:
         key = ('opaque', self.name, tuple(str(x) for x in sorts))
         if key not in _FOLDS:
             _FOLDS[key] = z3.Function('spec_' + self.name, *(sorts + [self.ret.sort()]))
-        return Val(self.ret, _FOLDS[key](*[a.t for a in args]))
+        app = _FOLDS[key](*[a.t for a in args])
+        # the definition is available as ONE quantified axiom triggered by applications of the symbol, so that
+        # quantifier bodies stay free of string operations (opaque with definitional axiom)
+        if key not in eng.axiom_keys and self.name not in eng.c.abstract:
+            eng.axiom_keys.add(key)
+            from .types import fresh as _fresh
+            bvs = [_fresh(a.ty, 'ax') for a in args]
+            tmp_pc = []
+
+            class _S:
+                pass
+            hold = _S()
+            hold.assume = lambda *c: tmp_pc.extend(c)
+            hold.heap = st.heap
+            dv = self.smt(eng, hold, *bvs)
+            uf = _FOLDS[key](*[b.t for b in bvs])
+            body = uf == dv.t
+            if tmp_pc:
+                body = z3.And(body, *tmp_pc)
+            eng.axioms.append(z3.ForAll([b.t for b in bvs], body, patterns=[uf]))
+        return Val(self.ret, app)
+
+
+def _mentions(term, names):
+    seen = set()
+    stack = [term]
+    while stack:
+        t = stack.pop()
+        if t.get_id() in seen:
+            continue
+        seen.add(t.get_id())
+        if z3.is_const(t) and t.decl().kind() == z3.Z3_OP_UNINTERPRETED and t.decl().name() in names:
+            return True
+        stack.extend(t.children())
+    return False
 
 
 def spec(name, native, ret=TBool):
